@@ -17,6 +17,8 @@ fn main() {
     let mut start = 0u64;
     let mut mode = String::new();
     let mut cap_mb = 512usize;
+    let mut tapes: Vec<String> = vec![];
+    let mut fuzz_n = 2000u64;
     let mut k = 2;
     while k < args.len() {
         let v = args.get(k + 1).cloned().unwrap_or_default();
@@ -30,6 +32,8 @@ fn main() {
             "--start" => start = v.parse().unwrap_or(0),
             "--mode" => mode = v,
             "--cap-mb" => cap_mb = v.parse().unwrap_or(512),
+            "--tape" => tapes.push(v),
+            "--fuzz-n" => fuzz_n = v.parse().unwrap_or(2000),
             _ => {
                 eprintln!("unknown option {}", args[k]);
                 std::process::exit(2);
@@ -45,8 +49,33 @@ fn main() {
     let child = std::thread::Builder::new()
         .stack_size(1 << 30)
         .spawn(move || {
+            if mode == "fuzz-replay" || mode == "fuzz-random" {
+                // decision-tape cases outside libFuzzer: replay of recorded tapes, or N random tapes
+                let mut fs = pvmon::fuzz::FuzzSession::new(&prop, &log, None, seed);
+                if mode == "fuzz-replay" {
+                    for t in tapes.iter() {
+                        match std::fs::read(t) {
+                            Ok(data) => {
+                                let n = fs.one(&data);
+                                eprintln!("tape {}: {} violation(s)", t, n);
+                            }
+                            Err(e) => eprintln!("cannot read tape {}: {}", t, e),
+                        }
+                    }
+                } else {
+                    let mut r = pvmon::rng::Rng::new(seed ^ 0xF022);
+                    for _ in 0..fuzz_n {
+                        let len = r.below(1024);
+                        let data: Vec<u8> = (0..len).map(|_| r.next_u64() as u8).collect();
+                        fs.one(&data);
+                    }
+                }
+                fs.ctx.rec.note("profile", fs.ctx.profile);
+                fs.ctx.rec.finish();
+                return 0;
+            }
             let rec = Rec::new(&log, marker);
-            let mut ctx = Ctx { prop, tier, seed, shard, nshards, start, mode, profile: build_profile(), rec };
+            let mut ctx = Ctx { prop, tier, seed, shard, nshards, start, mode, profile: build_profile(), rec, fuzz: None, max_case: std::cell::Cell::new(0) };
             let known = props::run(&mut ctx);
             if !known {
                 eprintln!("unknown property {}", ctx.prop);
